@@ -200,6 +200,27 @@ def _shard_single(rec, arg):
         rec.sample({"composition": ["filter-'", "chunks-3"], "program": "'2%;3ẇ5Ẏ", "declared_demand": demand(["filter-'", "chunks-3"], 5)})
 
 
+# consumers whose demand depends on what the earlier stages let through (equality of items, truthiness of partial results)
+SENSITIVE_LAST = ["uniquify", "cumulative-sums", "deltas", "filter-'", "behead", "zipmap"]
+
+
+def _shard_triples(rec, arg):
+    """every valid composition (a, b, c) with c one of the data-sensitive consumers, and every valid pair"""
+    shard, nshards, n_list = arg
+    names = list(CATALOGUE)
+    i = 0
+    comps = [[a, b] for a in names for b in names] + [[a, b, c] for a in names for b in names for c in SENSITIVE_LAST]
+    for comp in comps:
+        for kind in ("int", "str"):
+            if not _valid(comp, kind):
+                continue
+            i += 1
+            if i % nshards != shard:
+                continue
+            n = n_list[i % len(n_list)]
+            _do(rec, comp, n, "take" if (i // len(n_list)) % 2 == 0 else "index", kind, "exhaustive-pairs-and-sensitive-triples")
+
+
 def _shard_hyp(rec, arg):
     seed, n_ex = arg
     names = list(CATALOGUE)
@@ -223,6 +244,8 @@ def run(rec, tier, seed):
     n_list = [0, 1, 2, 5, 17, 40] if quick else list(range(0, 41))
     campaign.parallel(rec, _shard_single, [(names[i::ns], n_list) for i in range(ns)])
     rec.exhaustive.append(f"every catalogue entry ({len(names)}) x source kinds x n in {n_list if quick else '0..40'} x take/index")
+    campaign.parallel(rec, _shard_triples, [(s, ns * 2, [2, 5, 17] if quick else [1, 2, 3, 5, 9, 17, 40]) for s in range(ns * 2)])
+    rec.exhaustive.append(f"every valid pair of catalogue entries and every valid triple ending in one of {SENSITIVE_LAST} (one n and one access kind each)")
     n_ex = 250 if quick else 6000
     campaign.parallel(rec, _shard_hyp, [(seed * 1000 + i, n_ex) for i in range(ns)])
     rec.notes["catalogue"] = {k: v[0] for k, v in CATALOGUE.items()}
